@@ -14,7 +14,23 @@ Inductive style := Unknown | Title | Lower | Upper.
 (* error values: 1 = ErrNamingFormat, 2 = fmt.Errorf("意外的格式：%s", flag) *)
 Definition err_naming : nat := 1.
 Definition err_style : nat := 2.
-Definition err_config : nat := 3.    (* config.validate: errors.New("缺少配置项 - namingFormat") *)
+Definition err_config : nat := 3.
+Definition err_handle : nat := 9.    (* harness convention: an operation on a handle that was never created *)
+
+(* histories of the configuration front end in one process: every NewConfig call allocates a fresh
+   Config (`cfg := &Config{NamingFormat: format}`), which its owner may then assign to *)
+Inductive hop :=
+| HNew (s : str)                 (* cfg, err := config.NewConfig(s); cfg is kept as the next handle *)
+| HSet (i : nat) (v : str)       (* handle i: cfg.NamingFormat = v  (e.g. a yaml load over it) *)
+| HRead (i : nat)                (* handle i: cfg.NamingFormat *)
+| HFmt (i : nat) (c : str).      (* format.FileNamingFormat(handle i's NamingFormat, c) *)
+
+Fixpoint replace_nth {A} (i : nat) (v : A) (l : list A) : list A :=
+  match l, i with
+  | [], _ => []
+  | _ :: r, O => v :: r
+  | a :: r, S i' => a :: replace_nth i' v r
+  end.    (* config.validate: errors.New("缺少配置项 - namingFormat") *)
 
 (* config.go:8 DefaultFormat = "godesigner" *)
 Definition default_format : str := [103; 111; 100; 101; 115; 105; 103; 110; 101; 114].
@@ -178,4 +194,24 @@ Section WithUnicode.
   (* the generator's path: cfg, err := NewConfig(t); FileNamingFormat(cfg.NamingFormat, content) *)
   Definition configured_format (t content : str) : result str :=
     bind (new_config t) (fun f => file_naming_format f content).
+
+  (* the heap of Config objects: handle |-> its NamingFormat.  NewConfig returns the (non-nil) cfg
+     together with validate's error, holding the format after the empty => default substitution. *)
+  Definition hstep (st : list str) (o : hop) : result str * list str :=
+    match o with
+    | HNew s0 =>
+        let format := match s0 with [] => default_format | _ => s0 end in
+        (new_config s0, st ++ [format])
+    | HSet i v => if Nat.ltb i (length st) then (Ok [], replace_nth i v st) else (Err err_handle, st)
+    | HRead i => match nth_error st i with Some f => (Ok f, st) | None => (Err err_handle, st) end
+    | HFmt i c => match nth_error st i with
+                  | Some f => (file_naming_format f c, st)
+                  | None => (Err err_handle, st)
+                  end
+    end.
+  Fixpoint hrun (st : list str) (ops : list hop) : list (result str) :=
+    match ops with
+    | [] => []
+    | o :: r => let rs := hstep st o in fst rs :: hrun (snd rs) r
+    end.
 End WithUnicode.
